@@ -37,7 +37,7 @@ func sortedElems(v resp.Value) []string {
 
 // c18Same compares a reply of the example server with the model's reply under
 // the conventions of DESIGN.md appendix C. It returns "" or a clause.
-func c18Same(cmd []string, got, want resp.Value) string {
+func c18Same(cmd []string, got, want resp.Value, st *model.State) string {
 	name := strings.ToUpper(cmd[0])
 	if want.IsError() {
 		if got.IsError() {
@@ -86,51 +86,45 @@ func c18Same(cmd []string, got, want resp.Value) string {
 		}
 		return "reply-pairs"
 	case name == "ZRANGE" || name == "ZRANGEBYSCORE" || name == "ZREVRANGE" || name == "ZREVRANGEBYSCORE":
-		// order by score is required; members of equal score compare as a set.
+		// Order by score is required; the order among members of equal score
+		// is not (DESIGN.md appendix C). The reply is right iff it lists
+		// distinct members of the set and the score at every position is the
+		// score Redis has at that position.
 		if got.Equal(want) {
 			return ""
 		}
-		withScores := false
-		for _, a := range cmd {
-			if strings.EqualFold(a, "WITHSCORES") {
-				withScores = true
-			}
-		}
-		if withScores {
-			grp := func(v resp.Value) []string {
-				var out []string
-				var cur []string
-				last := ""
-				for i := 0; i+1 < len(v.Elems); i += 2 {
-					sc := v.Elems[i+1].String()
-					if sc != last && cur != nil {
-						sort.Strings(cur)
-						out = append(out, last+":"+strings.Join(cur, ","))
-						cur = nil
-					}
-					last = sc
-					cur = append(cur, v.Elems[i].String())
-				}
-				if cur != nil {
-					sort.Strings(cur)
-					out = append(out, last+":"+strings.Join(cur, ","))
-				}
-				return out
-			}
-			if strings.Join(grp(got), ";") == strings.Join(grp(want), ";") {
-				return ""
-			}
+		if st == nil {
 			return "reply-order"
 		}
-		// without scores the tie groups are not visible: accept a permutation only
-		// if it is a permutation (the WITHSCORES read-out settles the order).
-		if strings.Join(sortedElems(got), "\x00") == strings.Join(sortedElems(want), "\x00") {
-			return "~tie-order-unknown"
+		step := 1
+		for _, a := range cmd {
+			if strings.EqualFold(a, "WITHSCORES") {
+				step = 2
+			}
 		}
-		return "reply-members"
+		scores := map[string]float64{}
+		if e := st.Keys[cmd[1]]; e != nil {
+			scores = e.ZSet
+		}
+		used := map[string]bool{}
+		for i := 0; i+step-1 < len(want.Elems); i += step {
+			gm, wm := string(got.Elems[i].Data), string(want.Elems[i].Data)
+			gs, isMember := scores[gm]
+			if !isMember || used[gm] {
+				return "reply-members"
+			}
+			used[gm] = true
+			if gs != scores[wm] {
+				return "reply-order"
+			}
+			if step == 2 && !got.Elems[i+1].Equal(resp.B(model.FmtScore(gs))) {
+				return "reply-score"
+			}
+		}
+		return ""
 	}
 	for i := range want.Elems {
-		if cl := c18Same([]string{"elem"}, got.Elems[i], want.Elems[i]); cl != "" {
+		if cl := c18Same([]string{"elem"}, got.Elems[i], want.Elems[i], nil); cl != "" {
 			return cl
 		}
 	}
@@ -182,7 +176,13 @@ func c18Types() []c18Type {
 		}
 		set = append(set, []string{"SADD", k, "a", "b", "a"}, []string{"SREM", k, "a", "b"}, []string{"SMEMBERS", k}, []string{"SCARD", k})
 		zset = append(zset, []string{"ZADD", k, "2", "a", "1", "b"}, []string{"ZRANGE", k, "0", "-1"}, []string{"ZRANGE", k, "0", "-1", "WITHSCORES"},
-			[]string{"ZRANGEBYSCORE", k, "1", "2"}, []string{"ZRANGEBYSCORE", k, "-inf", "+inf", "WITHSCORES"}, []string{"ZRANGEBYSCORE", k, "(1", "2"}, []string{"ZCARD", k})
+			[]string{"ZRANGEBYSCORE", k, "1", "2"}, []string{"ZRANGEBYSCORE", k, "-inf", "+inf", "WITHSCORES"}, []string{"ZRANGEBYSCORE", k, "(1", "2"}, []string{"ZCARD", k},
+			// partial index ranges (tie order is left open by the oracle), the
+			// ZRANGE options the framework parses (REV, BYSCORE, LIMIT), reverse commands
+			[]string{"ZRANGE", k, "0", "0"}, []string{"ZRANGE", k, "1", "-1", "WITHSCORES"}, []string{"ZRANGE", k, "0", "-1", "REV"}, []string{"ZRANGE", k, "0", "0", "REV", "WITHSCORES"},
+			[]string{"ZRANGE", k, "1", "2", "BYSCORE"}, []string{"ZRANGE", k, "2", "(1", "BYSCORE", "REV"}, []string{"ZRANGE", k, "-inf", "+inf", "BYSCORE", "LIMIT", "1", "1"},
+			[]string{"ZREVRANGE", k, "0", "0"}, []string{"ZREVRANGE", k, "0", "-1", "WITHSCORES"}, []string{"ZREVRANGEBYSCORE", k, "2", "1"}, []string{"ZREVRANGEBYSCORE", k, "+inf", "-inf", "LIMIT", "1", "1"},
+			[]string{"ZRANGEBYSCORE", k, "-inf", "+inf", "LIMIT", "1", "1"})
 	}
 	str = append(str, []string{"MSET", "k1", "x", "k2", ""}, []string{"MSET", "k2", "5", "k2", "x"}, []string{"MGET", "k1", "k2"})
 	mk := func(name string, cmds [][]string, ro [][]string) c18Type {
@@ -230,14 +230,14 @@ func c18Step(t c18Type, program [][]string) (clause, detail string, st *model.St
 	}
 	readout = strings.Join(ro, " ")
 	if last >= 0 {
-		if cl := c18Same(program[last], vals[last], wants[last]); cl != "" && cl[0] != '~' {
+		if cl := c18Same(program[last], vals[last], wants[last], st); cl != "" && cl[0] != '~' {
 			return strings.ToUpper(program[last][0]) + "|" + cl, fmt.Sprintf("%s replied %s, Redis replies %s", argsString(program[last]), vals[last], wants[last]), st, readout, false
 		}
 	}
 	ref := st.Clone()
 	for i, c := range t.Readout {
 		want := ref.Apply(c)
-		if cl := c18Same(c, vals[len(program)+i], want); cl != "" && cl[0] != '~' {
+		if cl := c18Same(c, vals[len(program)+i], want, ref); cl != "" && cl[0] != '~' {
 			after := "initial state"
 			if last >= 0 {
 				after = strings.ToUpper(program[last][0])
